@@ -128,6 +128,8 @@ class Env:
         try:
             if k == "write":
                 self.table(op["h"], op["s"], op["t"]).write(*self.pos_args(op["r"], op["c"]), p.val(op["v"]))
+            elif k == "touch":
+                res = self.touch(op)
             elif k == "addrow":
                 tb = self.table(op["h"], op["s"], op["t"])
                 at = None if op["at"] == 0 else (p.row_off + op["at"] - 1 if op["at"] <= tb.num_rows - p.row_off else tb.num_rows + (op["at"] - (tb.num_rows - p.row_off) - 1))
@@ -174,7 +176,7 @@ class Env:
                 try:
                     res = [[p.tok(c.value) for c in line] for line in it]     # consumed fully
                 except IndexError:
-                    res = ["IndexError"]
+                    res = [["IndexError"]]
             elif k == "cell":
                 tb = self.table(op["h"], op["s"], op["t"])
                 try:
@@ -208,6 +210,55 @@ class Env:
             return "IndexError", None
         except Exception as e:  # noqa: BLE001
             return "Other:%s:%s" % (type(e).__name__, str(e)[:80]), None
+
+    # ---- set_cell_style / set_cell_border / set_cell_formatting with their local effect
+    def _marks(self, tb, kind):
+        out = {}
+        for i, row in enumerate(tb.rows()):
+            for j, c in enumerate(row):
+                if kind == "style":
+                    out[(i, j)] = c.style.name if c.style is not None else None
+                elif kind == "border":
+                    out[(i, j)] = repr(c.border.top) if c.border is not None else None
+                else:
+                    out[(i, j)] = c.formatted_value
+        return out
+
+    def touch(self, op):
+        from numbers_parser import RGB, Border
+        tb = self.table(op["h"], op["s"], op["t"])
+        kind = op["kind"]
+        self.saves += 0
+        self.ntouch = getattr(self, "ntouch", 0) + 1
+        n = self.ntouch
+        pos = self.pos_args(op["r"], op["c"])
+        before = self._marks(tb, kind)
+        if kind == "style":
+            doc = self.docs[op["h"]]
+            name = "NV %s %d" % (self.tag, n)
+            while name in doc.styles:
+                n += 1000
+                name = "NV %s %d" % (self.tag, n)
+            st = doc.add_style(name=name, bold=True)
+            tb.set_cell_style(*pos, st)
+            want = name
+        elif kind == "border":
+            b = Border(1.0 + 0.25 * (n % 20), RGB(10, 20, (30 + n) % 256), "solid")
+            tb.set_cell_border(*pos, "top", b)
+            want = repr(b)
+        else:
+            places = n % 5 + 1
+            tb.set_cell_formatting(*pos, "number", decimal_places=places)
+            want = None
+        after = self._marks(tb, kind)
+        tgt = (self.p.crow(op["r"]), self.p.ccol(op["c"]))
+        if kind == "format":
+            fv = after.get(tgt) or ""
+            seen = "." in fv and len(fv.split(".")[1]) == places
+        else:
+            seen = after.get(tgt) == want
+        others = any(after.get(k) != v for k, v in before.items() if k != tgt)
+        return {"seen": bool(seen), "others": bool(others)}
 
     # ---- projection
     def project_table(self, tb):
@@ -277,7 +328,9 @@ def run_history(scratch, profile, ops, nhandles=1, tag="x", init_dims=(1, 1)):
         e["out"] = out.split(":")[0] if out.startswith("Other") else out
         if out.startswith("Other"):
             e["exc"] = out
-        if res is not None:
+        if isinstance(res, dict):
+            e.update(res)
+        elif res is not None:
             e["res"] = res
         e["post"] = env.project()
         trace["ev"].append(e)
